@@ -5,6 +5,7 @@ opened by the previous directive.
 
   %unit NAME                      start a unit (one per file)
   %features a b                   cargo features assumed ON for this unit (default: none)
+  %variant SUFFIX a b             assemble the unit a second time with features a b ON (unit NAME__SUFFIX)
   %file MOD PATH                  source file (relative to /repo) indexed under module name MOD
   %rename a::b::C => D            token-sequence rename (R5/R7), applied before prefix stripping
   %method NAME => NEWNAME         R6: method-call rename, unit wide
@@ -78,6 +79,8 @@ class Unit:
     preludes: list = field(default_factory=list)
     entries: list = field(default_factory=list)   # ('item', path, flags) ('fn', FnSpec) ('extern', path) ('raw', text)
     derives: dict = field(default_factory=dict)
+    variants: list = field(default_factory=list)   # (suffix, extra features)
+    variant_of: str = None
     src: str = ""
 
 
@@ -145,6 +148,11 @@ def parse_unit(path):
             unit.rlimit = float(arg)
         elif d == "%features":
             unit.features = set(arg.split())
+        elif d == "%variant":
+            # %variant SUFFIX feat1 feat2 : the same unit assembled again with extra cargo features
+            # ON (C05: both builds must satisfy the same contracts); reported as unit NAME__SUFFIX
+            ps = arg.split()
+            unit.variants.append((ps[0], set(ps[1:])))
         elif d == "%file":
             m, p = arg.split()
             unit.files[m] = p
@@ -267,6 +275,15 @@ def load_all(contracts_dir):
                 if e[1].path in fnspecs:
                     raise SpecError(f"function {e[1].path} has two home units")
                 fnspecs[e[1].path] = e[1]
+    import copy
+    for u in list(units.values()):
+        for (suffix, feats) in u.variants:
+            v = copy.copy(u)
+            v.name = u.name + "__" + suffix
+            v.features = set(u.features) | set(feats)
+            v.variants = []
+            v.variant_of = u.name
+            units[v.name] = v
     return units, fnspecs
 
 
